@@ -5,6 +5,10 @@ Line-protocol front end of the C06 model (requests after the leading `C06` field
 
   run <pre|later> <shape>      shape = prefix tokens separated by single spaces:
         D | C k | S | B <prim> k | W <wrap> body k | G <id> body k
+  rerun <run|call|runcode> <pre|later> <shape>
+        the same for an evaluation started on a VM that has been used before (`restart`);
+        the extra field `lost=` lists the outcomes when `RunCode`'s second `halt := 0` wipes
+        the store of the watcher it has just armed (possible only for `runcode` + `pre`)
 
 The reply lists what the Impl model allows for the case: where every thread parks when
 nothing is cancelled, whether the main thread would ever return by itself, and the set of
@@ -98,9 +102,10 @@ def parkedOf (s : Sys) : String :=
 def dedup (xs : List String) : List String :=
   xs.foldl (fun acc x => if acc.contains x then acc else acc ++ [x]) []
 
-def runCase (cfg : Cfg) (instant : String) (p : Prog) : String :=
+/-- outcomes of the evaluation whose main thread is the head of `s0` (not yet cancelled):
+    where the threads park, whether main ends by itself, the outcome set over the race -/
+def outcomesFrom (cfg : Cfg) (instant : String) (p : Prog) (s0 : Sys) : String × Bool × List String :=
   let fuel := 2 * size p + 8
-  let s0 := init p
   let sA := if instant = "pre" then s0 else settle cfg fuel s0
   let nonterm := match (settle cfg fuel s0).threads with
     | m :: _ => !m.st.isFin
@@ -108,21 +113,38 @@ def runCase (cfg : Cfg) (instant : String) (p : Prog) : String :=
   let s1 := apply cfg sA .cancel
   let outs := (List.range (size p + 3)).map fun k =>
     outcome (settle cfg fuel (apply cfg (stepsMain cfg k s1) (.fire 0)))
+  (parkedOf sA, nonterm, dedup outs)
+
+def parseEntry : String → Option Entry
+  | "run" => some .run | "call" => some .call | "runcode" => some .runCode | _ => none
+
+/-- `fresh = true`: `Run` on a new VM (`init`); otherwise the main VM has been used before
+    and is started again through `entry` (`restartSys` on a used system).  `lost=` lists the
+    outcomes of the `RunCode` race (`canLose`), `-` when it cannot happen. -/
+def runCase (cfg : Cfg) (fresh : Bool) (entry : Entry) (instant : String) (p : Prog) : String :=
+  let used : Sys := { cancelled := false, threads := [usedMain] }
+  let s0 := if fresh then init p else restartSys false used p
+  let (parked, nonterm, outs) := outcomesFrom cfg instant p s0
+  let lost := if !fresh && canLose entry (instant = "pre")
+    then ";".intercalate (outcomesFrom cfg instant p (restartSys true used p)).2.2
+    else "-"
   let b := fun (x : Bool) => if x then "1" else "0"
-  "ok\tparked=" ++ parkedOf sA ++ "\tnonterm=" ++ b nonterm ++ "\touts=" ++ ";".intercalate (dedup outs)
-    ++ "\tguards=" ++ b (!noCloneSpin p) ++ b (!noSwallow p) ++ b (!noLossy p)
+  "ok\tparked=" ++ parked ++ "\tnonterm=" ++ b nonterm ++ "\touts=" ++ ";".intercalate outs
+    ++ "\tguards=" ++ b (!noCloneSpin p) ++ b (!noSwallow p) ++ b (!noLossy p) ++ "\tlost=" ++ lost
+
+def withShape (shape : String) (f : Prog → String) : String :=
+  let toks := shape.splitOn " "
+  match parseProg (toks.length + 1) toks with
+  | some (p, []) => f p
+  | _ => "error\tbad-shape"
 
 def handle : List String → String
-  | ["run", instant, shape] =>
-    let toks := shape.splitOn " "
-    match parseProg (toks.length + 1) toks with
-    | some (p, []) => runCase implCfg instant p
-    | _ => "error\tbad-shape"
-  | ["runspec", instant, shape] =>
-    let toks := shape.splitOn " "
-    match parseProg (toks.length + 1) toks with
-    | some (p, []) => runCase specCfg instant p
-    | _ => "error\tbad-shape"
+  | ["run", instant, shape] => withShape shape (runCase implCfg true .run instant)
+  | ["runspec", instant, shape] => withShape shape (runCase specCfg true .run instant)
+  | ["rerun", entry, instant, shape] =>
+    match parseEntry entry with
+    | some e => withShape shape (runCase implCfg false e instant)
+    | none => "error\tbad-entry"
   | _ => "error\tunknown-request"
 
 end Risor.C06
